@@ -80,7 +80,9 @@ func Parse(s string) (*Predicate, error) {
 	if raw[0] != '"' {
 		return nil, fmt.Errorf("predicate.Parse failed to parse since string does not start with \" in %s", s)
 	}
-	idx := strings.Index(raw, "\"@[")
+	// The ID is quoted, so it may itself contain the sequence "@[ (as \"@[); the
+	// anchor never does. The last occurrence is the one that closes the ID.
+	idx := strings.LastIndex(raw, "\"@[")
 	if idx < 0 {
 		return nil, fmt.Errorf("predicate.Parse could not find anchor definition in %s", raw)
 	}
